@@ -50,9 +50,11 @@ def run_render_property(run, *, prop, propfile, module, theorems, items, pcheck,
     C = corr.Corr(run, prop.lower())
     objs = []
     nobj = 0
-    for obj, cms, meta in items:
+    for it in items:
+        obj, cms, meta = it[:3]
+        ref = it[3] if len(it) > 3 else None
         nobj += 1
-        r = C.add(obj, cms, meta)
+        r = C.add(obj, cms, meta, ref)
         if r is not None:
             objs.append(obj)
     # known findings: witnesses are evaluated like any other case
@@ -111,6 +113,11 @@ def run_render_property(run, *, prop, propfile, module, theorems, items, pcheck,
                           % (len(mism), name, mode, sql[:200]),
                           {"correspondence": "Model.Render.render vs get_sql", "context": name, "mode": mode, "flags": _flags(ctx), "impl_sql": sql,
                            "impl_values": vals, "model": _dbg(C, i), "meta": meta}, found_input=False)
+        elif C.unexpected_unmodelled():
+            u = C.unexpected_unmodelled()
+            run.violation("the model no longer covers what the generator builds: %d object(s) the dumper refuses (%s) - fail closed"
+                          % (sum(u.values()), "; ".join("%s x%d" % kv for kv in list(u.items())[:4])),
+                          {"correspondence": "harness/dump.py (live object -> Model.Syntax term)", "refused": u}, found_input=False)
         elif errors:
             run.violation("case files could not be evaluated: %s" % errors[0], {"errors": errors[:3]}, found_input=False)
         elif not proofs_ok:
